@@ -70,6 +70,18 @@ def generate(tier, rng):
     # (0) stage 5, forced instances of the new axes, first: a merged dataset of three probes exported with
     # convert(force=True) / with the merged channel_map.npy stored as an (n, 1) column; a curated 16-channel column in
     # which templates 3 and 5 (5 dominant: id != rank in the group) are merged; the same on two shanks
+    # (00) stage 6, forced instances first: ONE creator used for two conversions with different unit factors / labels (single,
+    # curated by one split; merged of two probes); 300 templates in a uint16 spike_templates file, half of the spikes of
+    # template 250 split into the new cluster 300 (products template id x number of clusters beyond 2^16)
+    cases.append(_case(X.with_history(rng, X.gen_single(rng, nt=3, nspk=6, st=[0, 1, 2, 2, 1, 0], sc=[0, 1, 2, 3, 1, 0], curated=True,
+                                                        features='none', nc=4, table='none', label='volts', factor=0.5, shanks=False),
+                                      hist=[{'label': 'raw', 'factor': 1.0, 'force': False, 'same_creator': True}])))
+    cases.append(_case(X.with_history(rng, X.gen_merged(rng, k=2, ncs=[3, 4], factor=2.5, label=''),
+                                      hist=[{'label': 'probe00', 'factor': 2.0, 'force': True, 'same_creator': True},
+                                            {'label': '', 'factor': 4.0, 'force': False, 'same_creator': False}])))
+    st300 = [250, 250, 250, 250] + [t for t in range(218, 300, 9)] + [0, 1, 299, 299]
+    cases.append(_case(X.gen_many(rng, nt=300, st=st300, sc=[300, 300] + st300[2:], id_dtype='uint16', nc=3, features='none')))
+    cases.append(_case(X.gen_many(rng, id_dtype='uint16')))
     cases.append(_case(X.gen_merged(rng, k=3, ncs=[4, 5, 3], cms=[[2, 0, 5, 1], [3, 6, 0, 2, 1], [1, 4, 0]], force=True, cm_col=False)))
     cases.append(_case(X.gen_merged(rng, k=3, ncs=[3, 4, 2], cms=[[2, 0, 1], [1, 3, 0, 2], [0, 1]], force=False, cm_col=True)))
     cases.append(_case(X.gen_merge_case(rng, nt=6, group=[3, 5], dominant=5, extra_spikes=2, new_id=6, split=0.0, nc=16,
@@ -132,6 +144,14 @@ def generate(tier, rng):
     # stage 5: curated merges of arbitrary templates with distinct channel neighbourhoods (> 12 channels / two shanks)
     for _ in range({'quick': 24, 'thorough': 600, 'search': 60}[tier]):
         cases.append(_case(X.gen_merge_case(rng)))
+    # stage 6: id magnitudes (more than 256 templates, every id dtype) and histories of conversions on one model / creator
+    for _ in range({'quick': 6, 'thorough': 150, 'search': 12}[tier]):
+        cases.append(_case(X.gen_many(rng)))
+    for _ in range({'quick': 10, 'thorough': 300, 'search': 20}[tier]):
+        cases.append(_case(X.with_history(rng, X.gen_single(rng))))
+        cases.append(_case(X.with_history(rng, X.gen_merged(rng))))
+    for _ in range({'quick': 4, 'thorough': 100, 'search': 8}[tier]):
+        cases.append(_case(X.with_history(rng, X.gen_merge_case(rng))))
     for force in (False, True):
         for col in (False, True):
             for k in (2, 3, 4):
@@ -165,8 +185,17 @@ def run_case(case):
         snap = X.snapshot(m, inp['probes'][0]['n_spikes'] if inp.get('big_n') else None)
         out = os.path.join(base, 'alf')
         try:
-            m2 = EphysAlfCreator(m).convert(out, label=inp['label'], ampfactor=float(inp['factor']),
-                                            **({'force': True} if inp.get('force') else {}))
+            creator = EphysAlfCreator(m)
+            # stage 6: the conversions made before the judged one on the same loaded model (and, mostly, on the same
+            # creator object), each into a fresh directory of its own
+            for j, h in enumerate(inp.get('history') or []):
+                c0 = creator if h.get('same_creator', True) else EphysAlfCreator(m)
+                m0 = c0.convert(os.path.join(base, 'alf_h%d' % j), label=h['label'], ampfactor=float(h['factor']),
+                                **({'force': True} if h.get('force') else {}))
+                if m0 is not None:
+                    m0.close()
+            m2 = creator.convert(out, label=inp['label'], ampfactor=float(inp['factor']),
+                                 **({'force': True} if inp.get('force') else {}))
             if m2 is not None:
                 m2.close()
         except Exception as e:  # noqa: the conversion raised: an observable
@@ -268,6 +297,13 @@ def dist(case, obs):
     o = inp['opts']
     out = ['kind=%s' % case['kind'], 'label=%s' % (inp['label'] or '-'), 'factor=%s' % inp['factor'],
            'cm_dtype=%s' % inp['render']['cm_dtype'], 'force=%s' % bool(inp.get('force'))]
+    h = inp.get('history') or []
+    out.append('history=%d' % len(h))
+    if h:
+        out += ['history.same_creator=%s' % any(x.get('same_creator', True) for x in h),
+                'history.other_factor=%s' % any(x['factor'] != inp['factor'] for x in h),
+                'history.other_label=%s' % any(x['label'] != inp['label'] for x in h)]
+    out += ['id_dtype=%s' % inp['render']['id_dtype'], 'templates=%s' % ('>256' if inp['probes'][0]['n_templates'] > 256 else '<=256')]
     if inp['merged']:
         out.append('merged.channel_map_column=%s' % bool(inp.get('cm_col')))
     else:
@@ -380,6 +416,17 @@ def shrink(case):
         j = copy.deepcopy(inp)
         j['label'] = ''
         yield _case(j)
+    h = inp.get('history') or []
+    for k in range(len(h)):
+        j = copy.deepcopy(inp)
+        del j['history'][k]
+        yield _case(j)
+    for k, x in enumerate(h):
+        for key, dv in (('force', False), ('label', '')):
+            if x[key] != dv:
+                j = copy.deepcopy(inp)
+                j['history'][k][key] = dv
+                yield _case(j)
     for key in ('force', 'cm_col'):
         if inp.get(key):
             j = copy.deepcopy(inp)
@@ -391,7 +438,8 @@ def size(case):
     inp = case['inp']
     return sum(s['n_spikes'] * 10 + s['n_templates'] * s['n_samples_wf'] * s['n_channels'] for s in inp['probes']) + \
         100 * len(inp['probes']) + (50 if inp.get('features') else 0) + 10 * inp.get('big_n', 0) + \
-        (5 if inp.get('force') else 0) + (5 if inp.get('cm_col') else 0)
+        (5 if inp.get('force') else 0) + (5 if inp.get('cm_col') else 0) + \
+        sum(20 + (5 if x.get('force') else 0) + (3 if x['label'] else 0) for x in (inp.get('history') or []))
 
 
 def repro(case):
@@ -402,6 +450,8 @@ def repro(case):
             "inp = %r\n"
             "base = tempfile.mkdtemp(); m = X.build_model(inp, base)\n"
             "print('channel_mapping', m.channel_mapping, 'channel_probes', m.channel_probes, 'per-probe maps', [p['channel_map'] for p in inp['probes']])\n"
-            "EphysAlfCreator(m).convert(os.path.join(base, 'alf'), label=inp['label'], ampfactor=inp['factor'], force=bool(inp.get('force')))\n"
+            "c = EphysAlfCreator(m)\n"
+            "for j, h in enumerate(inp.get('history') or []): (c if h.get('same_creator', True) else EphysAlfCreator(m)).convert(os.path.join(base, 'alf_h%%d' %% j), label=h['label'], ampfactor=h['factor'], force=bool(h.get('force')))\n"
+            "c.convert(os.path.join(base, 'alf'), label=inp['label'], ampfactor=inp['factor'], force=bool(inp.get('force')))\n"
             "for k, v in X.read_values(os.path.join(base, 'alf'), inp['label']).items(): print(k, np.load(os.path.join(base, 'alf', k + ('.' + inp['label'] if inp['label'] else '') + '.npy')).tolist())\n"
             % (case['inp'],))
